@@ -537,6 +537,8 @@ def contentLength (hs : List (Bytes × Bytes)) : Except Err (Option Nat) :=
   match getHeader hs bContentLength with
   | none => .ok none
   | some v => if v.isEmpty || !v.all isDigitB then .error .invalidHeader
+              -- CPython's int() refuses more than 4300 digits (ValueError → InvalidHeader)
+              else if v.length > Gen.Http.intMaxStrDigits then .error .invalidHeader
               else .ok (some (v.foldl (fun a b => a * 10 + (b.toNat - 48)) 0))
 
 /-- what happens once the blank line closes a header block: parse, pick the body framing.
